@@ -16,8 +16,8 @@ INVARIANT LoopAgrees
 INVARIANT ImportantSafe
 CHECK_DEADLOCK FALSE
 """
-NV = 16           # values in MC_Rewrites!Vals; symbol k = 4*(value-1) + 1 + important + 2*exception
-EMPTY = 16
+NV = 18           # values in MC_Rewrites!Vals; symbol k = 4*(value-1) + 1 + important + 2*exception
+EMPTY = 18
 
 
 def sym(v, important, exc):
@@ -27,12 +27,14 @@ def sym(v, important, exc):
 def core(rnd):
     """8-symbol core: a rewrite, its exception, an important variant, an empty-valued exception, a structured value and its
     exception, plus two seeded others."""
-    v = rnd.choice([1, 2, 4, 5, 6, 7, 8, 9])
+    v = rnd.choice([1, 2, 4, 5, 6, 7, 8, 9, 16])
     st = rnd.choice([10, 11, 12, 14])
     c = {sym(v, False, False), sym(v, False, True), sym(v, True, False), sym(EMPTY, rnd.random() < 0.5, True),
          sym(st, False, False), sym(st, False, True)}
     if v == 1:
         c.add(sym(3, False, True))      # the long spelling of the same A value
+    if v == 16:
+        c.add(sym(17, False, True))     # the long spelling of the same mixed-case canonical name
     if st == 14:
         c.add(sym(15, False, False))    # the same binding for another target: the exception must leave it alone
     while len(c) < 8:
@@ -51,7 +53,7 @@ def replay_cases(ctx, recs, tag):
 def run(ctx):
     ctx.rule = ("spec -> code: every sequence of distinct symbols up to MaxLen over seeded 8-symbol core alphabets (a rewrite, its "
                 "exception, an important variant, an empty-valued exception, a structured MX/SRV/HTTPS value with its exception) "
-                "and up to length 2/3 over the full 62-symbol alphabet (16 values x important x exception), replayed through "
+                "and up to length 2/3 over the full 70-symbol alphabet (18 values x important x exception), replayed through "
                 "DNSResult.DNSRewrites directly and through the DNS engine; code -> spec: seeded random lists up to length 20 "
                 "validated by Trace_Rewrites. distinct_nontrivial = cases where at least one rule is filtered out")
     ctx.assumptions = ["'empty-valued' is defined on the parsed value ($dnsrewrite= and NOERROR parse alike)",
